@@ -231,8 +231,103 @@ def run(props: Optional[List[str]] = None, jobs: int = 16, verbose: bool = True)
     return code, extra
 
 
+# ----------------------------------------------------------------------------
+# automatic first-order mutants of the functions a property's rules look at
+# ----------------------------------------------------------------------------
+
+
+def _auto_worker(args) -> dict:
+    relfile, desc, new_text, prop = args
+    from .rules import load_all
+
+    load_all()
+    try:
+        with mutate.scratch_copy() as root:
+            (root / relfile).write_text(new_text)
+            out = mutate.run_props(root, [prop])
+    except Exception as exc:  # pragma: no cover
+        return {"desc": desc, "file": relfile, "status": "error", "err": repr(exc)[:120]}
+    code, viol, errs = out[prop]
+    return {"desc": desc, "file": relfile, "status": "killed" if viol else ("analysis-error" if errs else "survived"),
+            "rules": sorted({v[0] for v in viol})[:4]}
+
+
+def auto_mutants(prop: str, seed: int, limit: int = 160, jobs: int = 16) -> dict:
+    """
+    Mutation score of the property's check on the functions its rules
+    examined: first-order mutants (sa/mutops.py) of exactly those functions,
+    a seeded sample of `limit`, each run against the check. Not a pass/fail
+    criterion (many mutants do not touch the property or are equivalent); it
+    measures how much of the anchored code the rules are sensitive to.
+    """
+    import random
+
+    from . import mutops
+    from .rules import load_all
+
+    load_all()
+    repo = core.Repo()
+    code, rep = core.run_property(prop, "quick", repo=repo, write_evidence=False, quiet=True)
+    funcs = {i.function for i in rep.get("instances", [])}
+    by_file: Dict[str, List[Tuple[int, int]]] = {}
+    for q in funcs:
+        fi = repo.funcs.get(q)
+        if fi is None:
+            continue
+        by_file.setdefault(fi.mod.relpath, []).append((fi.node.lineno, fi.node.end_lineno or fi.node.lineno))
+    tasks = []
+    for rel, ranges in sorted(by_file.items()):
+        text = (repo.root / rel).read_text()
+        tree = ast.parse(text)
+        base = ast.unparse(tree)
+        seen = set()
+        for desc, t in mutops.mutants_of(tree):
+            try:
+                line = int(desc.split()[0][1:])
+            except ValueError:
+                continue
+            if not any(a <= line <= b for a, b in ranges):
+                continue
+            try:
+                ast.fix_missing_locations(t)
+                new = ast.unparse(t)
+            except Exception:
+                continue
+            if new == base or new in seen:
+                continue
+            seen.add(new)
+            tasks.append((rel, desc, new, prop))
+    total = len(tasks)
+    random.Random(seed).shuffle(tasks)
+    tasks = tasks[:limit]
+    with ProcessPoolExecutor(jobs) as ex:
+        res = list(ex.map(_auto_worker, tasks, chunksize=2))
+    killed = [r for r in res if r["status"] == "killed"]
+    surv = [r for r in res if r["status"] == "survived"]
+    return {
+        "functions_mutated": len(funcs),
+        "mutants_generated": total,
+        "mutants_sampled": len(res),
+        "killed": len(killed),
+        "analysis_error_only": sum(1 for r in res if r["status"] == "analysis-error"),
+        "survived": len(surv),
+        "survivor_samples": [f"{r['file'].split('/')[-1]} {r['desc']}" for r in surv[:12]],
+        "killed_samples": [f"{r['file'].split('/')[-1]} {r['desc']} -> {r['rules']}" for r in killed[:6]],
+        "note": "survivors include mutants that do not affect this property and equivalent mutants; no threshold is applied",
+    }
+
+
 def run_for_property(prop: str) -> Tuple[int, dict]:
-    return run([prop])
+    code, extra = run([prop])
+    seed = int(os.environ.get("VERIF_SEED", "0") or 0)
+    try:
+        extra["auto_mutation"] = auto_mutants(prop, seed)
+        am = extra["auto_mutation"]
+        print(f"SELFTEST auto-mutants ({prop}): {am['killed']}/{am['mutants_sampled']} sampled mutants of {am['functions_mutated']} anchored functions reported "
+              f"({am['mutants_generated']} generated, seed {seed})")
+    except Exception as exc:  # never fail the check because of the score
+        extra["auto_mutation"] = {"error": repr(exc)[:200]}
+    return code, extra
 
 
 if __name__ == "__main__":
